@@ -68,6 +68,14 @@ pub fn assume(c: bool) {
     kani::assume(c)
 }
 
+/// end this path here (everything after it is outside the claim of the harness)
+#[cfg(kani)]
+#[inline(always)]
+pub fn stop() -> ! {
+    kani::assume(false);
+    loop {}
+}
+
 #[cfg(kani)]
 macro_rules! nd_cover {
     ($c:expr, $m:literal) => {
@@ -159,6 +167,12 @@ pub fn assume(c: bool) {
         std::eprintln!("ASSUME-FAILED: the recorded values do not satisfy a harness assumption");
         std::process::exit(4);
     }
+}
+#[cfg(all(verif_replay, not(kani)))]
+pub fn stop() -> ! {
+    extern crate std;
+    std::println!("REPLAY-COMPLETED-WITHOUT-PANIC");
+    std::process::exit(0);
 }
 #[cfg(all(verif_replay, not(kani)))]
 macro_rules! nd_cover {
